@@ -135,12 +135,15 @@ impl Bal {
 }
 
 pub fn gen_share_value(rng: &mut Rng) -> i128 {
-    match rng.below(8) {
+    match rng.below(10) {
         0 => ONE,
         1 => ONE + rng.below(1 << 30) as i128,
         2 => ONE + rng.below(ONE as u64 / 2) as i128,
         3 => ONE + rng.below(ONE as u64) as i128,
         4 => rng.below(ONE as u64) as i128 + 1, // after socialised loss
+        // almost wiped by socialised losses: a share value around and below the dust threshold (0.0001), down to one bit
+        8 => rng.below(2 * 28_147_497_671) as i128 + 1,
+        9 => *rng.pick(&[1i128, 2, 1000, 28_147_497_670, 28_147_497_671, 28_147_497_672]),
         5 => ONE * 3 + rng.below(ONE as u64) as i128,
         6 => ONE + 1,
         _ => ONE + rng.below(ONE as u64 / 10) as i128,
